@@ -61,7 +61,7 @@ exec_plans.counter = 0
 
 def gen_plan(exe, prop, cfg, seed, index):
     p = subprocess.run([exe, "gen", "--prop", prop, "--cfg", cfg, "--seed", str(seed), "--index", str(index)],
-                       stdout=subprocess.PIPE, stderr=subprocess.PIPE, env=ENV, cwd=VERIF, timeout=60)
+                       stdout=subprocess.PIPE, stderr=subprocess.PIPE, env=ENV, cwd=VERIF, timeout=900)
     return json.loads(p.stdout.decode("latin-1"))
 
 
